@@ -53,8 +53,8 @@ def r2(ctx):
         cs_h = fa.arg_origin(uh[0], 1)
         ctx.check(P, rule, "replay: the truncated changeset is what is committed and copied into the header", term_has_call(cs_c, MT_TRUNCATE) is not None and term_has_call(cs_h, MT_TRUNCATE) is not None and fa.dominates(uh[0], cm[0]),
                   "update_header_with_changeset(changeset) then tree.commit(changeset)", "commit / header update do not receive the changeset rebuilt from the entry")
-        ws = {p: term_str(fa.origin_rvalue(fa.blocks[b].stmts[si]["rv"], b, si)) for b, si, p in assign_sites_prefix(fa, "changeset")}
-        good = "tree_upgrade" in ws.get("changeset.ancestors", "") and ws.get("changeset.ancestors", "").endswith(".ancestors") and "tree_upgrade" in ws.get("changeset.signature", "") and "hash" in ws.get("changeset.hash", "")
+        ws = {p: term_str(fa.origin_rvalue(fa.blocks[b].stmts[si]["rv"], b, si)) for b, si, p in assign_sites_prefix(fa, "~MerkleTreeChangeset")}
+        good = "tree_upgrade" in ws.get("~MerkleTreeChangeset.ancestors", "") and ws.get("~MerkleTreeChangeset.ancestors", "").endswith(".ancestors") and "tree_upgrade" in ws.get("~MerkleTreeChangeset.signature", "") and "hash" in ws.get("~MerkleTreeChangeset.hash", "")
         ctx.check(P, rule, "replay: ancestors, hash and signature of the changeset are restored from the entry", good, "changeset.{ancestors,hash,signature} set before the header update", "changeset fields restored: %s" % ws)
         hdr = fa.arg_origin(uh[0], 3)
         ctx.check(P, rule, "replay updates the header that the core will keep", "header" in term_str(hdr) and term_has_call(hdr, OPLOG_OPEN) is not None, "update_header_with_changeset(.., &mut outcome.header)", "header argument is %s" % term_str(hdr)[:80])
@@ -129,9 +129,9 @@ def r4(ctx):
             good = is_agg(u) and term_is_lit(agg_field(u, "drop"), 0)
             if good:
                 st, ln = agg_field(u, "start"), agg_field(u, "length")
-                cs0 = named_local_origin(fa, "changeset")
-                from_tree = cs0 is not None and strip(cs0)[0] == "call" and strip(cs0)[2] == MT_CHANGESET and path_of(strip(strip(cs0)[3][0])) == "self.tree"
-                good = term_sig(st).endswith("changeset.ancestors") and term_sig(ln).endswith("changeset.batch_length") and (from_tree or (term_has_call(st, MT_CHANGESET) is not None and term_has_call(ln, MT_CHANGESET) is not None))
+                csite = sites(fa, MT_CHANGESET)
+                from_tree = len(csite) == 1 and path_of(strip(fa.arg_origin(csite[0], 0))) == "self.tree"
+                good = from_tree and term_sig(st) in ("~MerkleTreeChangeset.ancestors", "changeset(self.tree).ancestors") and term_sig(ln) in ("~MerkleTreeChangeset.batch_length", "changeset(self.tree).batch_length")
             ctx.check(P, rule, "appended indices are [old length, old length + batch)", good, "BitfieldUpdate{drop:false, start: changeset.ancestors, length: changeset.batch_length}", "bitfield update is %s" % term_str(u)[:140], key="C01|C01.R4|append bitfield update")
         # every block of the batch is appended to the changeset exactly once, in order
         ap = sites(fa, CS_APPEND)
@@ -237,11 +237,18 @@ def r6(ctx):
                   "%s can skip an element: %s is not executed for every element of `%s`" % (fn, callee_of(fa.blocks[ss[0]].term), over), [site_desc(fa, ss[0])], key="C01|C01.R6|%s|element skipped" % fn)
 
 
-RULES = [r1, r2, r3, r4, r5, r6]
+def r7(ctx):
+    """bitfield pages come back from storage as they were written (shared with C06.R5 / C08.R2):
+    reopening must not change has()"""
+    from . import c06
+    c06.r5(ctx, P, "C01.R7")
+
+
+RULES = [r1, r2, r3, r4, r5, r6, r7]
 EXPLANATION = ("C01 (log contents equal an append-only list model across reopen): decides the replay codec agreement of the oplog Entry — each optional section is decoded under the flag bit it was "
                "encoded with, flags 1/2/4/8, same presence conditions in size and encode (R1); replay completeness — every field of Entry reaches its consumer inside the replay loop of Hypercore::new, the "
                "rebuilt changeset is completed, copied into the header and committed, entries are walked in log order (R2); the read gate — every storage read of get() is dominated by bitfield.get(index), the "
                "not-held edge returns Ok(None), has() is bitfield.get(index) (R3); append / clear placement — data offset = tree.byte_length before commit, bitfield update = [ancestors, +batch_length), clear "
-               "logs and drops exactly [start, end) (R4); observation provenance — AppendOutcome / Info come from the committed tree, commit copies the changeset, byte length accumulates node sizes (R5); loops that persist or apply one thing per element (batch blocks, changeset nodes, unflushed nodes, dirty pages, replayed nodes) do so for every element (R6).")
+               "logs and drops exactly [start, end) (R4); observation provenance — AppendOutcome / Info come from the committed tree, commit copies the changeset, byte length accumulates node sizes (R5); loops that persist or apply one thing per element (batch blocks, changeset nodes, unflushed nodes, dirty pages, replayed nodes) do so for every element (R6); the bitfield page reader uses the writer's stride, page-relative little-endian words and reads every word of a complete page (R7).")
 NOT_DECIDED = ("byte equality of reads; byte offsets of blocks (sums of node sizes over flat-tree paths); the hole computation in clear; flush cadence; that reopening changes no observation beyond R1/R2.")
 ASSUMPTIONS = ["flat_tree index arithmetic is correct"]
